@@ -97,6 +97,17 @@ CHECKS.update({
    technique="bounded symbolic execution of the real Python (PYSYM) with a symbolic entropy tape + z3"),
 })
 
+CHECKS.update({
+ 'C10': dict(engine="PYSYM", category="model_checking",
+   text="Bounded model checking of call histories: every sequence of method calls up to the depth bound over {update, encrypt, decrypt, digest, verify, encrypt_and_digest, decrypt_and_verify} is executed symbolically on the real GCM, EAX, CCM and ChaCha20-Poly1305 objects (all data bytes solver variables), and every encrypt/decrypt sequence on CBC, CFB, OFB, CTR and ChaCha20 objects.  Oracle: the documented life-cycle automaton -- a forbidden call raises TypeError and the object then behaves as if the call had not been made; every permitted sequence yields the pieces of the one-shot reference ciphertext/plaintext and its tag; digest()/verify() are idempotent and unlock nothing.",
+   note="Depth 3 (EAX 2) plus selected depth-4/5 paths in quick; depth 4 (GCM 5) exhaustively in thorough; argument lengths cycle through 1, 16, 17, 0.  SIV, OCB, CCM with declared lengths and hash/XOF/MAC objects are not yet part of this check; deeper histories are outside (no abstraction-soundness argument).  Primitives uninterpreted as in C01.",
+   technique="bounded model checking of method-call histories by symbolic execution of the real Python (PYSYM) + z3"),
+ 'C20': dict(engine="PYSYM", category="other",
+   text="Partial: (1) the body of the multiplication loop of _Element.__mul__, extracted from the real function's AST, executed once from an ARBITRARY 128-bit state (z, v, f2): z3 decides it equals the textbook shift-and-add step over GF(2)[x]/(x^128+x^7+x^2+x+1) and preserves the invariant -- an inductive argument covering all 2^384 states; (2) whole __mul__, commutativity, distributivity and inverse on operands with 4 free bits at positions 0/60/124; (3) split(): every coefficient is a distinct 16-byte RNG draw, the constant term is the secret and share i is the Horner evaluation at x=i (+x^k for ssss) with secret and coefficients symbolic at full width; (4) combine(split()) returns the secret for every k-subset in every order and refuses duplicates, on 4-bit-window secrets/coefficients.",
+   note="Field laws of __mul__ at full width are NOT claimed: z3/cvc5 cannot decide GF(2^128) multiplier identities (measured: 2x6 symbolic bits already unknown at 150 s), and the bin(bit)*128 mask idiom forks once per symbolic bit, so reconstruction with full-width symbolic operands on both sides is out of reach; k <= 3 (4 in thorough for split), n <= 4.",
+   technique="inductive step on the loop body extracted from the real AST + bounded symbolic execution (PYSYM) + z3"),
+})
+
 ENGINES = [
     dict(name="PYSYM", path="vlib/pysym", kind_free_text="bounded symbolic execution of the real Python source (AST-rewritten import, symbolic bytes/int proxies, fork by re-execution under a decision prefix) decided by z3"),
     dict(name="LLSYM", path="vlib/llsym", kind_free_text="symbolic interpreter of clang-14 LLVM IR (-O0 + mem2reg) of /repo/src/*.c into z3 terms, bounds-checked memory model, local path exploration with ite-merge at function returns; replay on the gcc-built C through ctypes"),
